@@ -129,7 +129,7 @@ def _register():
         # quick: uniform combos + a seeded sample; thorough: all (<= 3^8 = 6561 for quartics -> sampled 400)
         uniform = [c for c in combos if len(set(c)) <= 1]
         sample_q = rnd.sample(combos, min(6, len(combos)))
-        sample_t = combos if len(combos) <= 729 else rnd.sample(combos, 500)
+        sample_t = combos if len(combos) <= 81 else rnd.sample(combos, 100)
         seen = set()
         for tier, cs in (("quick", uniform + sample_q), ("thorough", sample_t)):
             for c in cs:
